@@ -146,8 +146,11 @@ def job(j):
     import os, sys
     rdir = os.path.join(sys.modules["src.optimizer.interpret_results"].repo_root, "results")
     for f in os.listdir(rdir):
-        if f.startswith("c12_%s_%s" % (pn, iso)):
-            os.remove(os.path.join(rdir, f))
+        if f.startswith("c12_%s_%s_" % (pn, iso)):
+            try:
+                os.remove(os.path.join(rdir, f))
+            except FileNotFoundError:
+                pass
     return out
 
 
